@@ -413,7 +413,7 @@ fn clone_waker(sh: &Shared, c: usize) -> Option<Waker> {
     Some(cl)
 }
 
-fn waker_thread(tid: usize, script: Vec<WOp>, sh: Arc<Shared>, is_merge: bool) {
+fn waker_thread(tid: usize, script: Vec<WOp>, sh: Arc<Shared>, is_merge: bool, drain: bool, nthreads: usize) {
     for op in script {
         CUR.with(|c| c.set(tid));
         match op {
@@ -472,6 +472,18 @@ fn waker_thread(tid: usize, script: Vec<WOp>, sh: Arc<Shared>, is_merge: bool) {
                 }
             }
             WOp::Yield => shuttle::thread::yield_now(),
+        }
+    }
+    if drain {
+        // the collection is dropped early in this scenario: let the last reference to the waker block
+        // die on a waker thread (each thread empties the stashes of "its" children)
+        for c in (0..sh.n).filter(|c| c % nthreads == tid - 1) {
+            loop {
+                CUR.with(|x| x.set(tid));
+                let Some(w) = take_waker(&sh, c, false) else { break };
+                CUR.with(|x| x.set(tid));
+                drop(w);
+            }
         }
     }
     CUR.with(|c| c.set(tid));
@@ -597,7 +609,8 @@ fn execution(sc: &Scenario) {
     for (t, script) in sc.threads.iter().enumerate() {
         let sh2 = sh.clone();
         let script = script.clone();
-        handles.push(shuttle::thread::spawn(move || waker_thread(t + 1, script, sh2, is_merge)));
+        let drain = sc.drop_early;
+        handles.push(shuttle::thread::spawn(move || waker_thread(t + 1, script, sh2, is_merge, drain, nthreads)));
     }
     // poller script, concurrent with the waker threads
     let mut last_k = 0usize;
